@@ -308,74 +308,127 @@ def model_line(name, w, kinds):
     return 'CONC %d %d %s' % (len(kinds), len(toks), ' '.join(toks))
 
 
-def run(ctx):
+def _enum_job(args):
+    """one scenario, all schedules up to the bound; returns plain data (runs in a forked worker)"""
+    idx, bound, limit = args
+    name, initial, make = (scenarios() + cached_scenarios())[idx]
     del UNSCHEDULABLE[:]
+    cached = name.startswith('cached:')
+    res = {'name': name, 'runs': 0, 'failures': [], 'nontriv': [], 'lines': [], 'samples': [], 'stuck': None,
+           'unschedulable': [], 'counts': {}}
+    try:
+        # the cached guard's window lies between source lines (lru_cache stores after the wrapped call returns):
+        # its schedules are enumerated at line / bytecode granularity
+        runs = enumerate_schedules(name, initial, make, bound if not cached else min(bound, 2),
+                                   limit if not cached else limit * 4, line_mode=cached)
+    except Stuck as e:
+        res['stuck'] = str(e)
+        return res
+    res['runs'] = len(runs)
+    for pre, results, sched, w, problems in runs:
+        desc = {'scenario': name, 'preemptions': [list(p) for p in pre],
+                'results': [list(map(str, r)) for r in results],
+                'actions': ['%s:%s' % (e[0], e[1]) for e in w.log][:60]}
+        if problems:
+            f = Failure('oracle', desc, desc['results'], None, problems[0],
+                        'Vakt.C14.decision_linearizable / add_once / no_interleaving_error', size=len(pre))
+            if cached and 'served from a decision computed against the older set' in problems[0]:
+                f.signature = 'lru-stale-insert'
+            else:
+                f.signature = 'oracle:' + name
+            res['failures'].append(f)
+        if len(pre) >= 1:
+            res['nontriv'].append('%s %r' % (name, pre))
+        if not cached:
+            kinds = make(World(Scheduler(), initial))[1]
+            res['lines'].append((model_line(name, w, kinds), desc, desc['results']))
+        if len(res['samples']) < 1 and len(pre) == 2 and not problems:
+            res['samples'].append({'scenario': name, 'preemptions (step -> thread)': [list(p) for p in pre],
+                                   'results': desc['results'], 'shared actions (tid:action)': desc['actions'][:24]})
+    res['unschedulable'] = list(UNSCHEDULABLE)
+    return res
+
+
+def _rand_job(args):
+    """random deep schedules at source-line / bytecode granularity (forked worker)"""
+    import random
+    seed, n = args
+    rng = random.Random(seed)
+    sc = scenarios()
+    del UNSCHEDULABLE[:]
+    res = {'runs': 0, 'failures': [], 'nontriv': [], 'yield': 0, 'unschedulable': [], 'stuck': None}
+    for _ in range(n):
+        name, initial, make = pick(rng, sc)
+        try:
+            results, sched, w, problems = run_one(name, initial, make, {0: rng.randrange(2)}, line_mode=True,
+                                                  random_switch=(rng, pick(rng, [0.02, 0.05, 0.2])))
+        except Stuck:
+            UNSCHEDULABLE.append((name, 'random'))
+            continue
+        res['runs'] += 1
+        res['yield'] += sched.step
+        if problems:
+            f = Failure('oracle', {'scenario': name, 'mode': 'line/bytecode granularity, random switches',
+                                   'switch_trace': [(s, t) for s, t, _, _ in sched.trace][:80],
+                                   'results': [list(map(str, r)) for r in results]}, None, None, problems[0],
+                        'Vakt.C14.decision_linearizable / no_interleaving_error')
+            f.signature = 'oracle-random:' + name
+            res['failures'].append(f)
+        res['nontriv'].append('rand %s %d' % (name, sched.step))
+    res['unschedulable'] = list(UNSCHEDULABLE)
+    return res
+
+
+def run(ctx):
+    import multiprocessing
     out = Outcome()
     rng = ctx.rng
     bound = 2 if ctx.tier == 'quick' else 3
-    limit = 400 if ctx.tier == 'quick' else 6000
+    limit = 800 if ctx.tier == 'quick' else 3000
     lines, meta = [], []
-    known_stale = 0
-    try:
-        for name, initial, make in scenarios() + cached_scenarios():
-            cached = name.startswith('cached:')
-            # the cached guard's window lies between source lines (lru_cache stores after the wrapped call returns):
-            # its schedules are enumerated at line / bytecode granularity
-            runs = enumerate_schedules(name, initial, make, bound if not cached else min(bound, 2),
-                                       limit if not cached else limit * 4, line_mode=cached)
-            out.count('scenario:%s' % name, len(runs))
-            for pre, results, sched, w, problems in runs:
-                out.evaluations += 1
-                out.traces += 1
-                desc = {'scenario': name, 'preemptions': [list(p) for p in pre],
-                        'results': [list(map(str, r)) for r in results],
-                        'actions': ['%s:%s' % (e[0], e[1]) for e in w.log][:60]}
-                if problems:
-                    f = Failure('oracle', desc, desc['results'], None, problems[0],
-                                'Vakt.C14.decision_linearizable / add_once / no_interleaving_error', size=len(pre))
-                    if name.startswith('cached:') and 'served from a decision computed against the older set' in problems[0]:
-                        f.signature = 'lru-stale-insert'
-                    else:
-                        f.signature = 'oracle:' + name
-                    out.failures.append(f)
-                if len(pre) >= 1:
-                    out.nontriv('%s %r' % (name, pre))
-                if not name.startswith('cached:'):
-                    kinds = make(World(Scheduler(), initial))[1]
-                    lines.append(model_line(name, w, kinds))
-                    meta.append((desc, results))
-                if len(out.samples) < 3 and len(pre) == 2 and not problems:
-                    out.samples.append({'scenario': name, 'preemptions (step -> thread)': [list(p) for p in pre],
-                                        'results': desc['results'], 'shared actions (tid:action)': desc['actions'][:24]})
-        # random deep schedules at source-line / bytecode granularity
-        nrand = ctx.budget(60, 20000)
-        sc = scenarios()
-        for _ in range(nrand):
-            name, initial, make = pick(rng, sc)
-            try:
-                results, sched, w, problems = run_one(name, initial, make, {0: rng.randrange(2)}, line_mode=True,
-                                                      random_switch=(rng, pick(rng, [0.02, 0.05, 0.2])))
-            except Stuck as e:
-                UNSCHEDULABLE.append((name, 'random'))
-                continue
-            out.evaluations += 1
-            out.count('random-line-granularity')
-            out.count('yield-points', sched.step)
-            if problems:
-                f = Failure('oracle', {'scenario': name, 'mode': 'line/bytecode granularity, random switches',
-                                       'switch_trace': [(s, t) for s, t, _, _ in sched.trace][:80],
-                                       'results': [list(map(str, r)) for r in results]}, None, None, problems[0],
-                            'Vakt.C14.decision_linearizable / no_interleaving_error')
-                f.signature = 'oracle-random:' + name
-                out.failures.append(f)
-            out.nontriv('rand %s %d' % (name, sched.step))
-    except Stuck as e:
-        raise Broken('scheduler stuck: %s' % e)
-    if UNSCHEDULABLE:
-        out.count('unschedulable', len(UNSCHEDULABLE))
-        if len(UNSCHEDULABLE) > max(20, out.evaluations // 4):
+    nsc = len(scenarios() + cached_scenarios())
+    nrand = ctx.budget(240, 12000)
+    chunks = max(1, min(ctx.procs, nrand // 20))
+    rjobs = [(rng.getrandbits(48), nrand // chunks + (1 if i < nrand % chunks else 0)) for i in range(chunks)]
+    ejobs = [(i, bound, limit) for i in range(nsc)]
+    # every schedule is run in a forked worker (one scenario or one chunk of random schedules each): the schedulers are
+    # independent, the threads they drive live and die inside the worker
+    if ctx.procs > 1:
+        with multiprocessing.get_context('fork').Pool(min(ctx.procs, nsc + chunks)) as pool:
+            eres = pool.map_async(_enum_job, ejobs, chunksize=1)
+            rres = pool.map_async(_rand_job, rjobs, chunksize=1)
+            eres, rres = eres.get(), rres.get()
+    else:
+        eres, rres = [_enum_job(j) for j in ejobs], [_rand_job(j) for j in rjobs]
+    unsched = []
+    for r in eres:
+        if r['stuck']:
+            raise Broken('scheduler stuck: %s' % r['stuck'])
+        out.count('scenario:%s' % r['name'], r['runs'])
+        out.evaluations += r['runs']
+        out.traces += r['runs']
+        out.failures.extend(r['failures'])
+        for k in r['nontriv']:
+            out.nontriv(k)
+        for line, desc, results in r['lines']:
+            lines.append(line)
+            meta.append((desc, results))
+        if len(out.samples) < 3:
+            out.samples.extend(r['samples'])
+        unsched.extend(r['unschedulable'])
+    for r in rres:
+        out.evaluations += r['runs']
+        out.count('random-line-granularity', r['runs'])
+        out.count('yield-points', r['yield'])
+        out.failures.extend(r['failures'])
+        for k in r['nontriv']:
+            out.nontriv(k)
+        unsched.extend(r['unschedulable'])
+    if unsched:
+        out.count('unschedulable', len(unsched))
+        if len(unsched) > max(20, out.evaluations // 4):
             raise Broken('%d of %d schedules could not be run cooperatively (first: %r)'
-                         % (len(UNSCHEDULABLE), out.evaluations + len(UNSCHEDULABLE), UNSCHEDULABLE[0]))
+                         % (len(unsched), out.evaluations + len(unsched), unsched[0]))
     model = ctx.driver.run(lines) if ctx.driver else []
     for line, (desc, results), m in zip(lines, meta, model):
         if m == 'bad-op':
